@@ -21,7 +21,7 @@ CHECKS = {
             'context[...] / lattice[...] / lattice(...) are checked against the reference closure, against leastness '
             'among all reference concepts, and for object identity with the lattice members.', '3 C02'),
     'C03': ('exhaustive small-table enumeration + Hypothesis table families vs brute-force concept model',
-            'Every boolean table up to 12 cells (quick) / 16 cells, 4x5, 5x4 and all 5x5 / 6x4 row multisets (thorough) '
+            'Every boolean table up to 12 cells (quick) / 18 cells, 4x5, 5x4 and all 5x5 / 6x4 row multisets (thorough) '
             'is compared with an independent closure-system model, plus seeded Hypothesis tables from explicit fill '
             'families up to 10x10; exploration is the right level because the property is a pure function of a small '
             'structured input and an obviously-correct oracle exists.', '3 C03'),
